@@ -109,10 +109,13 @@ var catalogue = []string{
 	`null`, `true`, `-1`, `0`, `1`, `9223372036854775808`, `1e999`, `1.5`, `""`, `"x"`, `[]`, `[null]`, `[[]]`, `{}`,
 	`{"rid":""}`, `{"rid":"test.x","action":"delete"}`, `{"rid":"test.x","data":1}`, `{"rid":"a..b"}`, `{"action":"x"}`, `{"action":"delete"}`,
 	`{"data":null}`, `{"data":{"rid":"test.x"}}`, `{"soft":true}`, `{"rid":"test.x","soft":"yes"}`, `100000`, `"test.x"`,
+	// indices at and around the length of the collections of the history (3, and 4 after an add)
+	`2`, `3`, `4`, `5`,
 }
 
 var catalogueQuick = []string{
 	`null`, `true`, `-1`, `1`, `9223372036854775808`, `""`, `[]`, `[null]`, `{}`, `{"rid":""}`, `{"rid":"test.x","action":"delete"}`, `{"action":"x"}`, `{"data":null}`, `100000`,
+	`2`, `3`, `4`,
 }
 
 // corruptions returns the valid template followed by all single-node corruptions.
